@@ -8,11 +8,19 @@ package main
 // write must be byte-identical (in particular x+y leaves x and y identical).
 
 import (
+	"bufio"
 	"context"
+	"encoding/json"
 	"fmt"
 	"os"
+	"os/exec"
+	"runtime"
+	"runtime/debug"
 	"strconv"
 	"strings"
+	"sync"
+	"sync/atomic"
+	"time"
 
 	"fortio.org/log"
 	"grol.io/grol/eval"
@@ -22,7 +30,18 @@ import (
 	. "verifharness/common"
 )
 
-func main() { common.Main("C06", runC06) }
+// The interpreter is never run in the process that writes the evidence: every sequence is generated and executed in a
+// child process (this same binary, C06_WORKER set) that streams its cases / failures / counters back as JSON lines.
+// A fatal Go error (stack overflow while printing a cyclic value, out of memory, ...) or a hang of the interpreter on an
+// input therefore kills only the child: the parent reports the statement that was in flight as a failing input
+// (crash-<op> / hang-<op>) and restarts the child behind it.
+func main() {
+	if spec := os.Getenv("C06_WORKER"); spec != "" {
+		workerMain(spec)
+		return
+	}
+	common.Main("C06", runC06)
+}
 
 const paramVar = 99
 const nVars = 8
@@ -182,6 +201,20 @@ type op struct {
 	p    prim
 	a, b int // F: e,y   C: r,y
 	body []prim
+	// C only: how the call is written. form: 0/'f' r=func(pp){..;pp}(y)   'l' r=(pp=>{..;pp})(y)   'n' func cf(pp){..;pp};r=cf(y)
+	// wrap: the body statements sit inside these constructs, outermost first: 'f' func(){..}()  'l' (()=>{..})()
+	// 'i' if true {..}  'o' for 1 {..}.  Inside 'f'/'l' the parameter pp and every v<n> are OUTER variables (References).
+	// The container machine has one OCall: parameter and outer names behave alike at any depth, so the driver drops form and wrap.
+	form byte
+	wrap string
+}
+
+func (o op) callTag() string {
+	f := o.form
+	if f == 0 {
+		f = 'f'
+	}
+	return string(f) + o.wrap
 }
 
 func bodyEnc(b []prim) string {
@@ -201,7 +234,10 @@ func (o op) enc() string {
 	case 'F':
 		return fmt.Sprintf("F:%d,%d:%s", o.a, o.b, bodyEnc(o.body))
 	default:
-		return fmt.Sprintf("C:%d,%d:%s", o.a, o.b, bodyEnc(o.body))
+		if o.callTag() == "f" {
+			return fmt.Sprintf("C:%d,%d:%s", o.a, o.b, bodyEnc(o.body))
+		}
+		return fmt.Sprintf("C:%d,%d,%s:%s", o.a, o.b, o.callTag(), bodyEnc(o.body))
 	}
 }
 func (o op) src() string {
@@ -215,8 +251,30 @@ func (o op) src() string {
 	case 'F':
 		return fmt.Sprintf("for %s=%s{%s}", vname(o.a), vname(o.b), strings.Join(parts, ";"))
 	default:
-		parts = append(parts, "pp")
-		return fmt.Sprintf("%s=func(pp){%s}(%s)", vname(o.a), strings.Join(parts, ";"), vname(o.b))
+		inner := strings.Join(parts, ";")
+		if inner != "" {
+			for i := len(o.wrap) - 1; i >= 0; i-- {
+				switch o.wrap[i] {
+				case 'f':
+					inner = "func(){" + inner + "}()"
+				case 'l':
+					inner = "(()=>{" + inner + "})()"
+				case 'i':
+					inner = "if true {" + inner + "}"
+				default:
+					inner = "for 1 {" + inner + "}"
+				}
+			}
+			inner += ";"
+		}
+		inner += "pp"
+		switch o.form {
+		case 'l':
+			return fmt.Sprintf("%s=(pp=>{%s})(%s)", vname(o.a), inner, vname(o.b))
+		case 'n':
+			return fmt.Sprintf("func cf(pp){%s};%s=cf(%s)", inner, vname(o.a), vname(o.b))
+		}
+		return fmt.Sprintf("%s=func(pp){%s}(%s)", vname(o.a), inner, vname(o.b))
 	}
 }
 func (o op) writes() map[int]bool {
@@ -244,9 +302,15 @@ func (o op) opName() string {
 	case 'F':
 		return "loop"
 	default:
+		if o.fnDepth() > 0 {
+			return "nestedcall"
+		}
 		return "call"
 	}
 }
+
+// number of function bodies between the statements and the body of the called function
+func (o op) fnDepth() int { return strings.Count(o.wrap, "f") + strings.Count(o.wrap, "l") }
 
 func encOps(ops []op) string {
 	parts := make([]string, len(ops))
@@ -311,6 +375,9 @@ func decOps(s string) []op {
 		i := strings.IndexByte(rest, ':')
 		hd := strings.Split(rest[:i], ",")
 		o := op{kind: k, a: atoi(hd[0]), b: atoi(hd[1])}
+		if len(hd) > 2 && hd[2] != "" {
+			o.form, o.wrap = hd[2][0], hd[2][1:]
+		}
 		if rest[i+1:] != "-" {
 			for _, ps := range strings.Split(rest[i+1:], "/") {
 				o.body = append(o.body, decPrim(ps))
@@ -420,14 +487,25 @@ func reprName(k byte) string {
 	return "scalar"
 }
 
-// one sequence = one correspondence case + the direct oracle on every step
-func c06Seq(c *Ctx, ops []op, slack int) {
+// one sequence = one correspondence case + the direct oracle on every step.
+// The statements come from `next` (given the bindings read back so far), so a generator can aim at the live state;
+// a failure is reported with the prefix of the sequence that ends at the failing statement.
+func c06Run(c *wctx, slack int, next func(step int, bs [nVars]binding) (op, bool)) {
 	se := newSession()
-	line := fmt.Sprintf("SEQ F %d %s", slack, encOps(ops))
-	var obs []string
+	prefix := fmt.Sprintf("SEQ F %d ", slack)
+	c.emit("B", prefix)
+	var encs, obs []string
 	before := se.read()
 	sensitive := false
-	for idx, o := range ops {
+	line := ""
+	for idx := 0; ; idx++ {
+		o, more := next(idx, before)
+		if !more {
+			break
+		}
+		encs = append(encs, o.enc())
+		line = prefix + strings.Join(encs, ";")
+		c.inflight(o.enc(), o.opName()) // flushed before the interpreter runs: the parent knows what was running if this process dies
 		res, panicked, errs := se.exec(o.src())
 		c.Eval()
 		if panicked {
@@ -459,6 +537,9 @@ func c06Seq(c *Ctx, ops []op, slack int) {
 			}
 		}
 		c.Count("op=" + o.opName())
+		if o.kind == 'C' {
+			c.Count("callform=" + o.callTag()[:1] + "/depth" + strconv.Itoa(o.fnDepth()))
+		}
 		if res == "err" {
 			c.Count("outcome=err")
 		} else {
@@ -466,6 +547,18 @@ func c06Seq(c *Ctx, ops []op, slack int) {
 		}
 		obs = append(obs, strings.TrimSpace(res+" "+obsBindings(after)))
 		before = after
+		tooBig := false
+		for v := 0; v < nVars; v++ {
+			if after[v].present && len(after[v].text) > 3000 {
+				tooBig = true
+			}
+		}
+		if tooBig { // a value blew up (nesting doubles renderings): end the sequence here
+			break
+		}
+	}
+	if len(encs) == 0 {
+		return
 	}
 	for v := 0; v < nVars; v++ {
 		if before[v].present {
@@ -476,6 +569,15 @@ func c06Seq(c *Ctx, ops []op, slack int) {
 		c.NonTrivial(line)
 	}
 	c.Case(line, strings.Join(obs, " | "))
+}
+
+func c06Seq(c *wctx, ops []op, slack int) {
+	c06Run(c, slack, func(i int, _ [nVars]binding) (op, bool) {
+		if i < len(ops) {
+			return ops[i], true
+		}
+		return op{}, false
+	})
 }
 
 // ---- generators
@@ -524,6 +626,21 @@ func corpus() [][]op {
 		// crossing the thresholds downwards and upwards
 		{mapLit(0, 5), P("CP", 1, 0, 0, 0, elem{}), P("DL", 0, 0, 1, 0, elem{}), P("DL", 0, 0, 2, 0, elem{}), P("IS", 0, 0, 7, 0, I(7)), P("IS", 0, 0, 8, 0, I(8)),
 			arrLit(2, 8), P("PL", 3, 2, 0, 0, I(9)), P("SL", 4, 3, 0, 8, elem{}), P("IS", 4, 0, 0, 0, I(0)), P("RP", 5, 2, 2, 0, elem{}), P("IS", 5, 0, -1, 0, I(0))},
+		// index assignment to an OUTER large array inside a function body (reached through a Reference), depth 0 and 2, lambda, named
+		{arrLit(0, 12), P("CP", 1, 0, 0, 0, elem{}), call(4, 1, 'f', "", prim{kind: "IS", x: 0, i: 0, e: I(99)}),
+			call(4, 1, 'l', "fl", prim{kind: "IS", x: 0, i: 1, e: I(98)}), call(5, 0, 'n', "o", prim{kind: "IS", x: 1, i: 2, e: I(97)}, prim{kind: "IN", x: 0, i: 3})},
+		// the same for a large map, and for a container stored inside another one
+		{mapLit(0, 6), op{kind: 'P', p: prim{kind: "AL", x: 1, es: []elem{V(0), I(1)}}}, call(4, 1, 'f', "f", prim{kind: "IS", x: 0, i: 1, e: I(99)}, prim{kind: "DL", x: 0, i: 2}),
+			arrLit(2, 9), op{kind: 'P', p: prim{kind: "ML", x: 3, kvs: []kv{{1, V(2)}}}}, call(4, 3, 'f', "i", prim{kind: "IS", x: 2, i: 0, e: I(96)}, prim{kind: "PL", x: 2, y: 2, e: I(5)})},
+		// fork: m grown by a merge (spare capacity), then two merges from the same m; and a window of a bigger map merged
+		{mapLit(0, 5), op{kind: 'P', p: prim{kind: "ML", x: 6, kvs: []kv{{6, I(6)}}}}, P("PL", 0, 0, 0, 0, V(6)),
+			op{kind: 'P', p: prim{kind: "ML", x: 5, kvs: []kv{{7, I(7)}}}}, op{kind: 'P', p: prim{kind: "ML", x: 7, kvs: []kv{{8, I(8)}}}},
+			P("PL", 2, 0, 0, 0, V(5)), P("PL", 3, 0, 0, 0, V(7))},
+		{mapLit(7, 8), P("SL", 0, 7, 0, 6, elem{}), op{kind: 'P', p: prim{kind: "ML", x: 6, kvs: []kv{{9, I(9)}}}}, P("PL", 2, 0, 0, 0, V(6)),
+			P("DL", 0, 0, 1, 0, elem{}), P("PL", 3, 0, 0, 0, V(6)), P("PL", 4, 0, 0, 0, V(2))},
+		// fork of an array with spare capacity: grown by append, shrunk by a slice
+		{arrLit(0, 8), P("PL", 0, 0, 0, 0, I(9)), P("PL", 0, 0, 0, 0, I(10)), P("PL", 2, 0, 0, 0, I(11)), P("PL", 3, 0, 0, 0, I(12)),
+			P("SL", 0, 0, 0, 9, elem{}), P("PL", 4, 0, 0, 0, I(13)), call(5, 0, 'f', "f", prim{kind: "PL", x: paramVar, y: 0, e: I(14)})},
 		// merge
 		{mapLit(0, 3), mapLit(1, 5), P("PL", 2, 0, 0, 0, V(1)), P("PL", 3, 1, 0, 0, V(0)), P("IS", 2, 0, 1, 0, I(9)), P("IS", 3, 0, 1, 0, I(8)), op{kind: 'P', p: prim{kind: "ML", x: 4}}, P("PL", 5, 0, 0, 0, V(4))},
 	}
@@ -533,7 +650,7 @@ type genState struct {
 	bs [nVars]binding
 }
 
-func (g *genState) pick(c *Ctx, pred func(b binding) bool) (int, bool) {
+func (g *genState) pick(c *wctx, pred func(b binding) bool) (int, bool) {
 	var cands []int
 	for v := 0; v < nVars; v++ {
 		if g.bs[v].present && len(g.bs[v].text) <= 250 && pred(g.bs[v]) { // keeps renderings bounded (nesting doubles them)
@@ -554,7 +671,7 @@ func notInt(b binding) bool { return b.kind != 'i' }
 var arrSizes = []int{0, 1, 2, 5, 7, 8, 8, 9, 9, 10, 12, 16, 20}
 var mapSizes = []int{0, 1, 3, 4, 4, 5, 5, 6, 9, 20}
 
-func (g *genState) randElem(c *Ctx, allowVar bool) elem {
+func (g *genState) randElem(c *wctx, allowVar bool) elem {
 	if allowVar && c.R.Pct(25) {
 		if v, ok := g.pick(c, anyB); ok {
 			return V(v)
@@ -563,7 +680,7 @@ func (g *genState) randElem(c *Ctx, allowVar bool) elem {
 	return I(int64(c.R.Intn(50)))
 }
 
-func (g *genState) randIndex(c *Ctx, b binding) int64 {
+func (g *genState) randIndex(c *wctx, b binding) int64 {
 	if isMap(b) {
 		return int64(c.R.Intn(24))
 	}
@@ -579,7 +696,7 @@ func (g *genState) randIndex(c *Ctx, b binding) int64 {
 }
 
 // a random statement that stays inside the model's fragment; inFn: body of a call (targets must exist)
-func (g *genState) randPrim(c *Ctx, inFn bool, extra []int) prim {
+func (g *genState) randPrim(c *wctx, inFn bool, extra []int) prim {
 	target := func() int {
 		if inFn {
 			if c.R.Pct(60) {
@@ -611,8 +728,13 @@ func (g *genState) randPrim(c *Ctx, inFn bool, extra []int) prim {
 		case k < 14:
 			n := mapSizes[c.R.Intn(len(mapSizes))]
 			p := prim{kind: "ML", x: target()}
+			off := int64(0)
+			if c.R.Pct(35) { // a short map whose keys lie above most others: merged later, it only extends the left operand
+				n = 1 + c.R.Intn(3)
+				off = int64(18 + 3*c.R.Intn(12))
+			}
 			for i := 0; i < n; i++ {
-				key := int64(i * 2)
+				key := off + int64(i*2)
 				if c.R.Pct(15) {
 					key = int64(c.R.Intn(12))
 				}
@@ -710,7 +832,7 @@ func (g *genState) randPrim(c *Ctx, inFn bool, extra []int) prim {
 
 // a statement for a loop body: no feedback that would double a value on every iteration
 // (sources are the loop variable or integers; a target is read only as the left operand of +)
-func (g *genState) loopPrim(c *Ctx, e int) prim {
+func (g *genState) loopPrim(c *wctx, e int) prim {
 	x := c.R.Intn(nVars)
 	if v, ok := g.pick(c, isCont); ok && c.R.Pct(70) {
 		x = v
@@ -737,7 +859,7 @@ func (g *genState) loopPrim(c *Ctx, e int) prim {
 	}
 }
 
-func (g *genState) randOp(c *Ctx) op {
+func (g *genState) randOp(c *wctx) op {
 	nb := 0
 	for v := 0; v < nVars; v++ {
 		if g.bs[v].present && isCont(g.bs[v]) {
@@ -762,9 +884,10 @@ func (g *genState) randOp(c *Ctx) op {
 			}
 			return o
 		}
-	case k < 18:
+	case k < 22:
 		if y, ok := g.pick(c, notInt); ok {
 			o := op{kind: 'C', a: c.R.Intn(nVars), b: y}
+			o.form, o.wrap = randWrap(c)
 			n := c.R.Intn(4)
 			for i := 0; i < n; i++ {
 				o.body = append(o.body, g.randPrim(c, true, []int{paramVar}))
@@ -775,101 +898,729 @@ func (g *genState) randOp(c *Ctx) op {
 	return op{kind: 'P', p: g.randPrim(c, false, nil)}
 }
 
-// random sequence: generated against the live interpreter state (sizes and kinds are read back), then
-// replayed from scratch by c06Seq
-func c06Random(c *Ctx, maxOps int) {
-	se := newSession()
+// random sequence: every statement is generated against the live interpreter state (sizes and kinds are read back)
+func c06Random(c *wctx, maxOps int) {
 	g := &genState{}
-	var ops []op
 	n := 4 + c.R.Intn(maxOps-3)
-	for i := 0; i < n; i++ {
-		o := g.randOp(c)
-		se.exec(o.src())
-		g.bs = se.read()
-		tooBig := false
-		for v := 0; v < nVars; v++ {
-			if g.bs[v].present && len(g.bs[v].text) > 3000 {
-				tooBig = true
+	c06Run(c, c.R.Intn(4), func(i int, bs [nVars]binding) (op, bool) {
+		if i >= n {
+			return op{}, false
+		}
+		g.bs = bs
+		return g.randOp(c), true
+	})
+}
+
+// ---- fork histories: ONE base container, grown / shrunk by a few operations (so that its backing array has spare
+// capacity or is a window of a bigger one), other holders of it, then 2-3 values derived from the SAME base by + with
+// operands whose keys lie above / below / between / on the base's keys, through plain statements, parameters, outer
+// variables inside (nested) functions and loops; everything is observed after every statement, then mutated again.
+// Variables: v0 base, v1 other holder, v2 v3 v4 derived, v5 v6 operands, v7 parent of the base.
+func randWrap(c *wctx) (byte, string) {
+	form := []byte{'f', 'f', 'l', 'n'}[c.R.Intn(4)]
+	wrap := ""
+	if c.R.Pct(60) {
+		for d := 1 + c.R.Intn(3); d > 0; d-- {
+			wrap += string("fflio"[c.R.Intn(5)])
+		}
+	}
+	return form, wrap
+}
+
+func forkMap(c *wctx) []op {
+	var ops []op
+	n := []int{2, 3, 4, 4, 5, 5, 5, 6, 6, 7, 9}[c.R.Intn(11)]
+	val := func() elem { return I(int64(c.R.Intn(90))) }
+	lit := func(x int, keys []int64) op {
+		p := prim{kind: "ML", x: x}
+		for _, k := range keys {
+			p.kvs = append(p.kvs, kv{k, val()})
+		}
+		if len(p.kvs) > 1 && c.R.Pct(30) { // literal order is arbitrary
+			r := c.R.Intn(len(p.kvs))
+			p.kvs = append(append([]kv(nil), p.kvs[r:]...), p.kvs[:r]...)
+		}
+		return op{kind: 'P', p: p}
+	}
+	seq := func(from int64, n int) []int64 {
+		ks := make([]int64, n)
+		for i := range ks {
+			ks[i] = from + 2*int64(i)
+		}
+		return ks
+	}
+	// origin of the base; `keys` = the base's keys, tracked statically (sorted)
+	var keys []int64
+	switch c.R.Intn(5) {
+	case 0, 1:
+		keys = seq(10, n)
+		ops = append(ops, lit(0, keys))
+	case 2: // left window of a bigger map: spare capacity holds the parent's later pairs
+		extra := 1 + c.R.Intn(3)
+		all := seq(10, n+extra)
+		keys = all[:n]
+		ops = append(ops, lit(7, all), P("SL", 0, 7, 0, int64(n), elem{}))
+	case 3: // inner window
+		extra := 1 + c.R.Intn(2)
+		all := seq(10, n+2*extra)
+		keys = all[extra : extra+n]
+		ops = append(ops, lit(7, all), P("SL", 0, 7, int64(extra), int64(extra+n), elem{}))
+	default: // rest
+		all := seq(10, n+1)
+		keys = all[1:]
+		ops = append(ops, lit(7, all), P("RS", 0, 7, 0, 0, elem{}))
+	}
+	maxK := func() int64 {
+		if len(keys) == 0 {
+			return 10
+		}
+		return keys[len(keys)-1]
+	}
+	minK := func() int64 {
+		if len(keys) == 0 {
+			return 10
+		}
+		return keys[0]
+	}
+	addKey := func(k int64) {
+		for i, x := range keys {
+			if x == k {
+				return
+			}
+			if x > k {
+				keys = append(keys[:i], append([]int64{k}, keys[i:]...)...)
+				return
 			}
 		}
-		if tooBig { // drop the statement that blew a value up and end the sequence here
-			break
-		}
-		ops = append(ops, o)
+		keys = append(keys, k)
 	}
-	if len(ops) == 0 {
-		return
+	if c.R.Pct(30) { // another holder before the base changes
+		ops = append(ops, P("CP", 1, 0, 0, 0, elem{}))
+	}
+	// grow / shrink
+	for g := c.R.Intn(4); g > 0; g-- {
+		switch c.R.Intn(7) {
+		case 0, 1: // merge with keys above (the accumulate pattern)
+			k := maxK() + 1 + int64(c.R.Intn(2))
+			ops = append(ops, lit(6, []int64{k}), P("PL", 0, 0, 0, 0, V(6)))
+			addKey(k)
+		case 2: // new key by index assignment: above / between
+			k := maxK() + 1
+			if c.R.Bool() {
+				k = minK() + 1
+			}
+			ops = append(ops, P("IS", 0, 0, k, 0, val()))
+			addKey(k)
+		case 3, 4: // delete a key: first / middle / last
+			if len(keys) > 0 {
+				i := []int{0, len(keys) / 2, len(keys) - 1}[c.R.Intn(3)]
+				ops = append(ops, P("DL", 0, 0, keys[i], 0, elem{}))
+				keys = append(keys[:i:i], keys[i+1:]...)
+			}
+		case 5: // grown inside a function, through the parameter or as an outer variable
+			k := maxK() + 1
+			form, wrap := randWrap(c)
+			tgt := paramVar
+			if c.R.Bool() {
+				tgt = 0
+			}
+			o := op{kind: 'C', a: 0, b: 0, form: form, wrap: wrap, body: []prim{{kind: "IS", x: tgt, i: k, e: val()}}}
+			if tgt == 0 {
+				o.a = 4 // the call's result goes elsewhere: the base was changed as an outer variable
+			}
+			ops = append(ops, o)
+			addKey(k)
+		default: // shrink by re-slicing
+			if len(keys) > 1 {
+				ops = append(ops, P("SL", 0, 0, 0, int64(len(keys)-1), elem{}))
+				keys = keys[:len(keys)-1]
+			}
+		}
+	}
+	switch c.R.Intn(5) { // another holder: plain copy, inside an array, inside a map
+	case 0:
+		ops = append(ops, P("CP", 1, 0, 0, 0, elem{}))
+	case 1:
+		ops = append(ops, op{kind: 'P', p: prim{kind: "AL", x: 1, es: []elem{V(0), I(1)}}})
+	case 2:
+		ops = append(ops, op{kind: 'P', p: prim{kind: "ML", x: 1, kvs: []kv{{1, V(0)}}}})
+	}
+	// operand keys relative to the base
+	operand := func(t int) []int64 {
+		m := 1 + c.R.Intn(3)
+		var ks []int64
+		switch c.R.Intn(8) {
+		case 0, 1, 2, 3: // all above
+			ks = seq(maxK()+1+int64(t), m)
+		case 4: // all below
+			ks = seq(minK()-int64(2*m+t), m)
+		case 5: // between
+			ks = seq(minK()+1, m)
+		case 6: // on existing keys
+			for i := 0; i < m && i < len(keys); i++ {
+				ks = append(ks, keys[(t+i)%len(keys)])
+			}
+			if len(ks) == 0 {
+				ks = []int64{10}
+			}
+		default: // between and above
+			ks = []int64{minK() + 1, maxK() + 3 + int64(t)}
+		}
+		return ks
+	}
+	derived := []int{2, 3, 4}[:2+c.R.Intn(2)]
+	if c.R.Pct(20) && len(derived) >= 2 {
+		// both forks inside one loop over an array of operands: for v3=v4{v1=v2;v2=v0+v3}
+		ops = append(ops, lit(5, operand(0)), lit(6, operand(1)),
+			op{kind: 'P', p: prim{kind: "AL", x: 4, es: []elem{V(5), V(6)}}},
+			op{kind: 'P', p: prim{kind: "AL", x: 2}},
+			op{kind: 'F', a: 3, b: 4, body: []prim{{kind: "CP", x: 1, y: 2}, {kind: "PL", x: 2, y: 0, e: V(3)}}})
+		derived = []int{1, 2}
+	} else {
+		for t, d := range derived {
+			tmp := 5 + t%2
+			ops = append(ops, lit(tmp, operand(t)))
+			switch c.R.Intn(6) {
+			case 0, 1, 2:
+				ops = append(ops, P("PL", d, 0, 0, 0, V(tmp)))
+			case 3: // the base arrives as an argument
+				form, wrap := randWrap(c)
+				ops = append(ops, op{kind: 'C', a: d, b: 0, form: form, wrap: wrap, body: []prim{{kind: "PL", x: paramVar, y: paramVar, e: V(tmp)}}})
+			case 4: // the base is an outer variable of the function
+				form, wrap := randWrap(c)
+				ops = append(ops, op{kind: 'C', a: d, b: tmp, form: form, wrap: wrap, body: []prim{{kind: "PL", x: paramVar, y: 0, e: V(paramVar)}}})
+			default: // the base itself moves on (m = m + ..) after a copy was taken
+				ops = append(ops, P("CP", d, 0, 0, 0, elem{}), P("PL", 0, 0, 0, 0, V(tmp)))
+			}
+		}
+	}
+	// afterwards: mutate one of them, all others are observed
+	all := append([]int{0}, derived...)
+	for m := c.R.Intn(3); m > 0; m-- {
+		x := all[c.R.Intn(len(all))]
+		k := maxK() + int64(c.R.Intn(3))
+		switch c.R.Intn(4) {
+		case 0:
+			ops = append(ops, P("IS", x, 0, k, 0, val()))
+		case 1:
+			ops = append(ops, P("DL", x, 0, k, 0, elem{}))
+		case 2:
+			ops = append(ops, P("IN", x, 0, minK(), 0, elem{}))
+		default:
+			form, wrap := randWrap(c)
+			ops = append(ops, op{kind: 'C', a: 4, b: 0, form: form, wrap: wrap, body: []prim{{kind: "IS", x: x, i: k, e: val()}}})
+		}
+	}
+	return ops
+}
+
+func forkArr(c *wctx) []op {
+	var ops []op
+	n := []int{5, 6, 7, 7, 8, 8, 8, 9, 9, 10, 12, 17}[c.R.Intn(12)]
+	val := func() elem { return I(int64(c.R.Intn(90))) }
+	ln := n // length of the base, tracked statically
+	switch c.R.Intn(5) {
+	case 0, 1:
+		ops = append(ops, arrLit(0, n))
+	case 2:
+		ops = append(ops, arrLit(7, n+1+c.R.Intn(3)), P("SL", 0, 7, 0, int64(n), elem{}))
+	case 3:
+		e := 1 + c.R.Intn(2)
+		ops = append(ops, arrLit(7, n+2*e), P("SL", 0, 7, int64(e), int64(e+n), elem{}))
+	default:
+		ops = append(ops, arrLit(7, n+1), P("RS", 0, 7, 0, 0, elem{}))
+	}
+	if c.R.Pct(30) {
+		ops = append(ops, P("CP", 1, 0, 0, 0, elem{}))
+	}
+	for g := c.R.Intn(4); g > 0; g-- {
+		switch c.R.Intn(7) {
+		case 0, 1: // append one element: growslice leaves spare capacity
+			ops = append(ops, P("PL", 0, 0, 0, 0, val()))
+			ln++
+		case 2: // append an array
+			m := 1 + c.R.Intn(3)
+			ops = append(ops, op{kind: 'P', p: prim{kind: "AL", x: 6, es: ints(50, m)}}, P("PL", 0, 0, 0, 0, V(6)))
+			ln += m
+		case 3, 4: // shrink: the dropped tail is spare capacity
+			if ln > 1 {
+				ops = append(ops, P("SL", 0, 0, 0, int64(ln-1), elem{}))
+				ln--
+			}
+		case 5: // inside a function, through the parameter or as an outer variable
+			form, wrap := randWrap(c)
+			tgt := paramVar
+			if c.R.Bool() {
+				tgt = 0
+			}
+			b := prim{kind: "PL", x: tgt, y: tgt, e: val()}
+			if c.R.Bool() && ln > 0 {
+				b = prim{kind: "IS", x: tgt, i: int64(c.R.Intn(ln)), e: val()}
+			} else {
+				ln++
+			}
+			o := op{kind: 'C', a: 0, b: 0, form: form, wrap: wrap, body: []prim{b}}
+			if tgt == 0 {
+				o.a = 4
+			}
+			ops = append(ops, o)
+		default:
+			if ln > 0 {
+				ops = append(ops, P("IS", 0, 0, int64(c.R.Intn(ln)), 0, val()))
+			}
+		}
+	}
+	switch c.R.Intn(5) {
+	case 0:
+		ops = append(ops, P("CP", 1, 0, 0, 0, elem{}))
+	case 1:
+		ops = append(ops, op{kind: 'P', p: prim{kind: "AL", x: 1, es: []elem{V(0), I(1)}}})
+	case 2:
+		ops = append(ops, op{kind: 'P', p: prim{kind: "ML", x: 1, kvs: []kv{{1, V(0)}}}})
+	}
+	derived := []int{2, 3, 4}[:2+c.R.Intn(2)]
+	if c.R.Pct(20) {
+		// for v3=v4{v1=v2;v2=v0+v3}
+		ops = append(ops, op{kind: 'P', p: prim{kind: "AL", x: 4, es: ints(70, 2)}},
+			op{kind: 'P', p: prim{kind: "AL", x: 2}},
+			op{kind: 'F', a: 3, b: 4, body: []prim{{kind: "CP", x: 1, y: 2}, {kind: "PL", x: 2, y: 0, e: V(3)}}})
+		derived = []int{1, 2}
+	} else {
+		for t, d := range derived {
+			e := val()
+			if c.R.Pct(40) {
+				tmp := 5 + t%2
+				ops = append(ops, op{kind: 'P', p: prim{kind: "AL", x: tmp, es: ints(60+10*t, 1+c.R.Intn(3))}})
+				e = V(tmp)
+			}
+			switch c.R.Intn(6) {
+			case 0, 1, 2:
+				ops = append(ops, P("PL", d, 0, 0, 0, e))
+			case 3:
+				form, wrap := randWrap(c)
+				ops = append(ops, op{kind: 'C', a: d, b: 0, form: form, wrap: wrap, body: []prim{{kind: "PL", x: paramVar, y: paramVar, e: e}}})
+			case 4:
+				form, wrap := randWrap(c)
+				ops = append(ops, op{kind: 'C', a: d, b: 0, form: form, wrap: wrap, body: []prim{{kind: "PL", x: paramVar, y: 0, e: e}}})
+			default:
+				ops = append(ops, P("CP", d, 0, 0, 0, elem{}), P("PL", 0, 0, 0, 0, e))
+			}
+		}
+	}
+	all := append([]int{0}, derived...)
+	for m := c.R.Intn(3); m > 0; m-- {
+		x := all[c.R.Intn(len(all))]
+		i := int64(c.R.Intn(ln + 1))
+		switch c.R.Intn(4) {
+		case 0:
+			ops = append(ops, P("IS", x, 0, i, 0, val()))
+		case 1:
+			ops = append(ops, P("PL", x, x, 0, 0, val()))
+		case 2:
+			ops = append(ops, P("IN", x, 0, i, 0, elem{}))
+		default:
+			form, wrap := randWrap(c)
+			ops = append(ops, op{kind: 'C', a: 4, b: 0, form: form, wrap: wrap, body: []prim{{kind: "IS", x: x, i: i, e: val()}}})
+		}
+	}
+	return ops
+}
+
+func c06Fork(c *wctx) {
+	var ops []op
+	if c.R.Bool() {
+		ops = forkMap(c)
+	} else {
+		ops = forkArr(c)
 	}
 	c06Seq(c, ops, c.R.Intn(4))
 }
 
 // exhaustive: every sequence of k statements from a fixed alphabet after a fixed prelude
-func c06Exhaustive(c *Ctx, k int) int {
-	prelude := []op{arrLit(0, 9), mapLit(1, 5), P("CP", 2, 0, 0, 0, elem{}), P("CP", 3, 1, 0, 0, elem{})}
-	alpha := []op{
-		P("IS", 2, 0, 0, 0, I(99)), P("IS", 0, 0, -1, 0, V(1)), P("IS", 3, 0, 1, 0, I(99)), P("IS", 1, 0, 9, 0, V(0)),
-		P("PL", 2, 0, 0, 0, I(10)), P("PL", 4, 2, 0, 0, I(11)), P("PL", 5, 2, 0, 0, V(0)), P("PL", 3, 1, 0, 0, V(3)),
-		P("DL", 3, 0, 2, 0, elem{}), P("DL", 1, 0, 1, 0, elem{}), P("IN", 2, 0, 1, 0, elem{}), P("IN", 3, 0, 3, 0, elem{}),
-		P("SL", 4, 0, 0, 8, elem{}), P("SL", 2, 2, 1, 99, elem{}), P("RS", 3, 3, 0, 0, elem{}), P("CP", 0, 4, 0, 0, elem{}),
-		P("GT", 5, 0, -1, 0, elem{}), P("IS", 5, 0, 0, 0, I(7)),
-		{kind: 'C', a: 4, b: 0, body: []prim{{kind: "IS", x: paramVar, i: 0, e: I(42)}}},
-		{kind: 'C', a: 4, b: 1, body: []prim{{kind: "DL", x: paramVar, i: 1}, {kind: "IS", x: 3, i: 5, e: V(paramVar)}}},
-		{kind: 'F', a: 5, b: 0, body: []prim{{kind: "PL", x: 2, y: 2, e: V(5)}}},
+type family struct {
+	prelude, alpha []op
+}
+
+func call(r, y int, form byte, wrap string, body ...prim) op {
+	return op{kind: 'C', a: r, b: y, form: form, wrap: wrap, body: body}
+}
+
+// family A: a 9-array, a 5-map and a copy of each; writes through every construct
+func famA() family {
+	return family{
+		prelude: []op{arrLit(0, 9), mapLit(1, 5), P("CP", 2, 0, 0, 0, elem{}), P("CP", 3, 1, 0, 0, elem{})},
+		alpha: []op{
+			P("IS", 2, 0, 0, 0, I(99)), P("IS", 0, 0, -1, 0, V(1)), P("IS", 3, 0, 1, 0, I(99)), P("IS", 1, 0, 9, 0, V(0)),
+			P("PL", 2, 0, 0, 0, I(10)), P("PL", 4, 2, 0, 0, I(11)), P("PL", 5, 2, 0, 0, V(0)), P("PL", 3, 1, 0, 0, V(3)),
+			P("DL", 3, 0, 2, 0, elem{}), P("DL", 1, 0, 1, 0, elem{}), P("IN", 2, 0, 1, 0, elem{}), P("IN", 3, 0, 3, 0, elem{}),
+			P("SL", 4, 0, 0, 8, elem{}), P("SL", 2, 2, 1, 99, elem{}), P("RS", 3, 3, 0, 0, elem{}), P("CP", 0, 4, 0, 0, elem{}),
+			P("GT", 5, 0, -1, 0, elem{}), P("IS", 5, 0, 0, 0, I(7)),
+			call(4, 0, 'f', "", prim{kind: "IS", x: paramVar, i: 0, e: I(42)}),
+			call(4, 1, 'f', "", prim{kind: "DL", x: paramVar, i: 1}, prim{kind: "IS", x: 3, i: 5, e: V(paramVar)}),
+			{kind: 'F', a: 5, b: 0, body: []prim{{kind: "PL", x: 2, y: 2, e: V(5)}}},
+			// outer variables written from inside function bodies, at depth 0 1 2 3, through func / lambda / named function
+			call(4, 1, 'f', "", prim{kind: "IS", x: 0, i: 0, e: I(43)}),
+			call(4, 0, 'l', "f", prim{kind: "IS", x: 2, i: 1, e: I(44)}, prim{kind: "IS", x: paramVar, i: 2, e: I(45)}),
+			call(5, 3, 'n', "lf", prim{kind: "IS", x: 1, i: 1, e: I(46)}, prim{kind: "DL", x: 3, i: 2}),
+			call(5, 1, 'f', "fol", prim{kind: "IN", x: 0, i: 3}, prim{kind: "PL", x: 2, y: 2, e: I(47)}, prim{kind: "DL", x: paramVar, i: 3}),
+		},
 	}
-	count := 0
+}
+
+// family B (forks): an 8-array and a 5-map grown / shrunk, then several values derived from the same base
+func famB() family {
+	one := func(x int, k, v int64) op { return op{kind: 'P', p: prim{kind: "ML", x: x, kvs: []kv{{k, I(v)}}}} }
+	return family{
+		prelude: []op{arrLit(0, 8), mapLit(1, 5), one(5, 20, 1), one(6, 21, 2), one(7, 22, 3)},
+		alpha: []op{
+			P("PL", 1, 1, 0, 0, V(5)), P("PL", 1, 1, 0, 0, V(6)), // m = m + {20:1} / {21:2}
+			P("PL", 2, 1, 0, 0, V(5)), P("PL", 3, 1, 0, 0, V(6)), P("PL", 4, 1, 0, 0, V(7)), // x y z = m + ..
+			P("IS", 1, 0, 9, 0, I(9)), P("DL", 1, 0, 1, 0, elem{}), P("SL", 1, 1, 0, 4, elem{}), P("SL", 1, 1, 0, 5, elem{}),
+			call(4, 1, 'f', "", prim{kind: "PL", x: paramVar, y: paramVar, e: V(7)}),
+			call(3, 6, 'l', "f", prim{kind: "PL", x: paramVar, y: 1, e: V(paramVar)}),
+			P("PL", 0, 0, 0, 0, I(9)), P("PL", 2, 0, 0, 0, I(10)), P("PL", 3, 0, 0, 0, I(11)), P("SL", 0, 0, 0, 8, elem{}),
+			P("IS", 0, 0, 0, 0, I(7)),
+			call(4, 0, 'n', "f", prim{kind: "PL", x: paramVar, y: 0, e: I(12)}),
+		},
+	}
+}
+
+func pow(a, k int) int {
+	r := 1
+	for ; k > 0; k-- {
+		r *= a
+	}
+	return r
+}
+
+// the n-th sequence of the family (digits of n in base len(alpha), most significant first)
+func (f family) seq(k, n int) []op {
+	ops := append([]op(nil), f.prelude...)
 	idx := make([]int, k)
-	for {
-		ops := append([]op(nil), prelude...)
-		for _, i := range idx {
-			ops = append(ops, alpha[i])
+	for j := k - 1; j >= 0; j-- {
+		idx[j] = n % len(f.alpha)
+		n /= len(f.alpha)
+	}
+	for _, i := range idx {
+		ops = append(ops, f.alpha[i])
+	}
+	return ops
+}
+
+// ---- worker side: a context with the same verbs as common.Ctx, whose effects are streamed to the parent
+type wctx struct {
+	R     *common.Rng
+	w     *bufio.Writer
+	dist  map[string]int
+	evals int
+}
+
+func (c *wctx) emit(parts ...string) {
+	b, _ := json.Marshal(parts)
+	c.w.Write(b)
+	c.w.WriteByte('\n')
+}
+func (c *wctx) Case(line, obs string)  { c.emit("C", line, obs) }
+func (c *wctx) Fail(sig, cs, d string) { c.emit("F", sig, cs, d); c.w.Flush() }
+func (c *wctx) NonTrivial(k string)    { c.emit("N", k) }
+func (c *wctx) Count(k string)         { c.dist[k]++ }
+func (c *wctx) Eval()                  { c.evals++ }
+func (c *wctx) inflight(enc, opn string) {
+	c.emit("I", enc, opn)
+	c.w.Flush()
+}
+func (c *wctx) endSeq() {
+	for k, n := range c.dist {
+		c.emit("K", k, strconv.Itoa(n))
+		delete(c.dist, k)
+	}
+	if c.evals > 0 {
+		c.emit("E", strconv.Itoa(c.evals))
+		c.evals = 0
+	}
+}
+
+func mix(seed uint64, n int) uint64 {
+	x := seed + uint64(n+1)*0x9E3779B97F4A7C15
+	x ^= x >> 30
+	x *= 0xBF58476D1CE4E5B9
+	x ^= x >> 27
+	x *= 0x94D049BB133111EB
+	x ^= x >> 31
+	return x
+}
+
+type job struct {
+	kind      string // corpus exhA exhB rand fork replay
+	seed      uint64
+	from, to  int // sequence numbers [from,to)
+	k, maxOps int
+	replay    string
+}
+
+func (j job) spec() string {
+	return fmt.Sprintf("%s:%d:%d:%d:%d:%d", j.kind, j.seed, j.from, j.to, j.k, j.maxOps)
+}
+
+func workerMain(spec string) {
+	debug.SetMaxStack(256 << 20) // a cyclic value must end its printer quickly
+	log.SetLogLevelQuiet(log.Critical)
+	f := strings.Split(spec, ":")
+	j := job{kind: f[0], from: atoi(f[2]), to: atoi(f[3]), k: atoi(f[4]), maxOps: atoi(f[5])}
+	j.seed, _ = strconv.ParseUint(f[1], 10, 64)
+	c := &wctx{w: bufio.NewWriterSize(os.Stdout, 1<<16), dist: map[string]int{}}
+	for n := j.from; n < j.to; n++ {
+		c.emit("S", strconv.Itoa(n))
+		c.R = common.NewRng(mix(j.seed, n))
+		switch j.kind {
+		case "replay":
+			rf := strings.Fields(os.Getenv("C06_CASE"))
+			c06Seq(c, decOps(rf[3]), atoi(rf[2]))
+		case "corpus":
+			c06Seq(c, corpus()[n], n%4)
+		case "exhA":
+			c06Seq(c, famA().seq(j.k, n), n%4)
+		case "exhB":
+			c06Seq(c, famB().seq(j.k, n), n%4)
+		case "rand":
+			c06Random(c, j.maxOps)
+		case "fork":
+			c06Fork(c)
 		}
-		c06Seq(c, ops, count%4)
-		count++
-		j := k - 1
-		for j >= 0 {
-			idx[j]++
-			if idx[j] < len(alpha) {
-				break
+		c.endSeq()
+	}
+	c.emit("D")
+	c.w.Flush()
+}
+
+// ---- parent side
+type capBuf struct {
+	mu sync.Mutex
+	b  []byte
+}
+
+func (w *capBuf) Write(p []byte) (int, error) {
+	w.mu.Lock()
+	if room := 1500 - len(w.b); room > 0 {
+		if len(p) < room {
+			room = len(p)
+		}
+		w.b = append(w.b, p[:room]...)
+	}
+	w.mu.Unlock()
+	return len(p), nil
+}
+func (w *capBuf) String() string { w.mu.Lock(); defer w.mu.Unlock(); return string(w.b) }
+
+const stallLimit = 45 * time.Second // one statement (plus reading 8 bindings) taking longer than this is a hang
+
+// runs one child over [j.from, j.to); returns its records, whether it finished, and if not: the number of the sequence it
+// died in (-1: before any), the case line and operation in flight, and what it said
+func spawn(j job) (recs [][]string, done bool, cur int, inflight, opn, diag string) {
+	cur = -1
+	self, err := os.Executable()
+	if err != nil {
+		return nil, false, -1, "", "", "os.Executable: " + err.Error()
+	}
+	cmd := exec.Command(self)
+	cmd.Env = append(os.Environ(), "C06_WORKER="+j.spec(), "C06_CASE="+j.replay)
+	stderr := &capBuf{}
+	cmd.Stderr = stderr
+	out, err := cmd.StdoutPipe()
+	if err != nil {
+		return nil, false, -1, "", "", "pipe: " + err.Error()
+	}
+	if err := cmd.Start(); err != nil {
+		return nil, false, -1, "", "", "start: " + err.Error()
+	}
+	var last atomic.Int64
+	last.Store(time.Now().UnixNano())
+	var hung atomic.Bool
+	stop := make(chan struct{})
+	go func() {
+		t := time.NewTicker(time.Second)
+		defer t.Stop()
+		for {
+			select {
+			case <-stop:
+				return
+			case <-t.C:
+				if time.Duration(time.Now().UnixNano()-last.Load()) > stallLimit {
+					hung.Store(true)
+					cmd.Process.Kill()
+					return
+				}
 			}
-			idx[j] = 0
-			j--
 		}
-		if j < 0 {
+	}()
+	rd := bufio.NewReaderSize(out, 1<<16)
+	prefix := ""
+	var encs []string
+	for {
+		lineB, err := rd.ReadBytes('\n')
+		if len(lineB) > 0 && lineB[len(lineB)-1] == '\n' {
+			var r []string
+			if json.Unmarshal(lineB, &r) == nil && len(r) > 0 {
+				switch r[0] {
+				case "S":
+					cur = atoi(r[1])
+					prefix, encs, opn = "", nil, ""
+					last.Store(time.Now().UnixNano())
+				case "B":
+					prefix, encs, opn = r[1], nil, ""
+				case "I":
+					encs = append(encs, r[1])
+					opn = r[2]
+					last.Store(time.Now().UnixNano())
+				case "D":
+					done = true
+				default:
+					recs = append(recs, r)
+				}
+			}
+		}
+		if err != nil {
 			break
 		}
 	}
-	return count
+	close(stop)
+	werr := cmd.Wait()
+	if done {
+		return recs, true, cur, "", "", ""
+	}
+	if len(encs) > 0 {
+		inflight = prefix + strings.Join(encs, ";")
+	}
+	what := "the interpreter process died"
+	if hung.Load() {
+		what = fmt.Sprintf("no progress for %v, killed", stallLimit)
+		opn = "hang:" + opn
+	}
+	diag = fmt.Sprintf("%s (%v) while running the last statement of the case; stderr: %s", what, werr, stderr.String())
+	return recs, false, cur, inflight, opn, diag
+}
+
+const maxCrashes = 60 // children restarted behind a crash, per run; beyond that the rest of each job is dropped (and said so)
+
+func runJob(j job, crashes *atomic.Int32) [][]string {
+	var recs [][]string
+	for j.from < j.to {
+		r, done, cur, inflight, opn, diag := spawn(j)
+		recs = append(recs, r...)
+		if done {
+			break
+		}
+		switch {
+		case inflight == "":
+			recs = append(recs, []string{"F", "harness-worker-died", j.spec(), diag})
+		case strings.HasPrefix(opn, "hang:"):
+			recs = append(recs, []string{"F", "hang-" + opn[5:], inflight, diag})
+		default:
+			recs = append(recs, []string{"F", "crash-" + opn, inflight, diag})
+		}
+		if cur < j.from {
+			cur = j.from
+		}
+		j.from = cur + 1
+		if crashes.Add(1) > maxCrashes {
+			recs = append(recs, []string{"K", "dropped-after-crash-cap", strconv.Itoa(j.to - j.from)})
+			break
+		}
+	}
+	return recs
+}
+
+func apply(c *Ctx, recs [][]string) {
+	for _, r := range recs {
+		switch r[0] {
+		case "C":
+			c.Case(r[1], r[2])
+		case "F":
+			c.Fail(r[1], r[2], r[3])
+		case "N":
+			c.NonTrivial(r[1])
+		case "K":
+			c.Dist[r[1]] += atoi(r[2])
+		case "E":
+			c.Evals += atoi(r[1])
+		}
+	}
+}
+
+// jobs run in up to `par` children at a time; their records are applied in job order, so the output does not depend on timing
+func runJobs(c *Ctx, jobs []job) {
+	par := runtime.NumCPU() / 2
+	if par > 6 {
+		par = 6
+	}
+	if par < 1 {
+		par = 1
+	}
+	var crashes atomic.Int32
+	results := make([]chan [][]string, len(jobs))
+	sem := make(chan struct{}, par)
+	for i := range jobs {
+		results[i] = make(chan [][]string, 1)
+	}
+	go func() {
+		for i := range jobs {
+			sem <- struct{}{}
+			go func(i int) {
+				results[i] <- runJob(jobs[i], &crashes)
+				<-sem
+			}(i)
+		}
+	}()
+	for i := range jobs {
+		apply(c, <-results[i])
+	}
+	c.Extra["interpreter_crashes_contained"] = int(crashes.Load())
+}
+
+func split(kind string, seed uint64, n, chunk, k, maxOps int) []job {
+	var js []job
+	for from := 0; from < n; from += chunk {
+		to := from + chunk
+		if to > n {
+			to = n
+		}
+		js = append(js, job{kind: kind, seed: seed, from: from, to: to, k: k, maxOps: maxOps})
+	}
+	return js
 }
 
 func runC06(c *Ctx) {
-	log.SetLogLevelQuiet(log.Critical)
 	c.Rule = "sequences of bind / copy / index-assign / + element / + array / * / slice / rest / get / map set / merge / del / " +
-		"element increment / store into another container / call mutating its parameter / loop variable, sizes 0..20 crossing 8 and 4 " +
-		"both ways, nested containers, on one persistent eval.State; every binding read after every statement. " +
+		"element increment / store into another container / call mutating its parameter and OUTER variables (func, lambda, named function; " +
+		"statements 0-3 function bodies deep, inside if / for) / loop variable, sizes 0..20 crossing 8 and 4 both ways, nested containers; " +
+		"fork histories (one base grown, shrunk or cut out of a bigger container, then 2-3 values derived from the same base by + with keys " +
+		"above / below / between / on the base's, via statements, parameters, outer variables, loops), on one persistent eval.State; " +
+		"every binding read after every statement; each sequence runs in a child process (a crash or hang of the interpreter is a failing input). " +
 		"non-trivial = distinct sequences in which a statement (other than a literal or a read) ran while another live binding held a large array or map"
 	if c.ReplayCase != "" {
 		f := strings.Fields(c.ReplayCase)
 		if len(f) == 4 && f[0] == "SEQ" {
-			c06Seq(c, decOps(f[3]), atoi(f[2]))
+			runJobs(c, []job{{kind: "replay", from: 0, to: 1, replay: c.ReplayCase}})
 		} else {
 			fmt.Println("bad replay case")
 		}
 		return
 	}
-	for i, ops := range corpus() {
-		c06Seq(c, ops, i%4)
-	}
-	if os.Getenv("C06_CORPUS_ONLY") != "" { // reproduction of the recorded defects on a pre-repair tree (random runs build cyclic values there)
+	jobs := split("corpus", 0, len(corpus()), 100, 0, 0)
+	if os.Getenv("C06_CORPUS_ONLY") != "" { // reproduction of the recorded defects on a pre-repair tree
+		runJobs(c, jobs)
 		return
 	}
-	k, nRandom, maxOps := 2, 5000, 14
+	kA, kB, nRandom, nFork, maxOps := 2, 3, 8000, 6000, 14
 	if c.Thorough() {
-		k, nRandom, maxOps = 3, 150000, 16
+		kA, kB, nRandom, nFork, maxOps = 3, 4, 120000, 60000, 16
 	}
-	n := c06Exhaustive(c, k)
+	nA, nB := pow(len(famA().alpha), kA), pow(len(famB().alpha), kB)
+	jobs = append(jobs, split("exhA", 0, nA, 400, kA, 0)...)
+	jobs = append(jobs, split("exhB", 0, nB, 400, kB, 0)...)
+	jobs = append(jobs, split("fork", c.R.Next(), nFork, 400, 0, 0)...)
+	jobs = append(jobs, split("rand", c.R.Next(), nRandom, 250, 0, maxOps)...)
 	c.Extra["exhaustive"] = true
-	c.Extra["exhaustive_sequences"] = n
-	for i := 0; i < nRandom; i++ {
-		c06Random(c, maxOps)
-	}
+	c.Extra["exhaustive_sequences"] = nA + nB
+	runJobs(c, jobs)
 }
